@@ -35,12 +35,14 @@ type Config struct {
 	Unwind     int
 	NoMerge    bool
 	DumpDir    string
+	Tier       string // quick | thorough: what the harness intrinsic vthorough() reports
 }
 
 func addCommon(fs *flag.FlagSet, c *Config) {
 	fs.StringVar(&c.Repo, "repo", "/repo", "repository root")
 	fs.StringVar(&c.HarnessDir, "harness-dir", "/verif/harness", "directory with harness overlay files (package ecs)")
 	fs.StringVar(&c.Tags, "tags", "", "build tags for /repo")
+	fs.StringVar(&c.Tier, "tier", "quick", "tier reported to harnesses by vthorough()")
 	fs.StringVar(&c.Solver, "solver", "z3", "solver binary (z3, z3-new, cvc5)")
 	fs.IntVar(&c.TimeoutMs, "timeout-ms", 60000, "per-query solver timeout")
 	fs.IntVar(&c.MaxSteps, "max-steps", 30000000, "SSA instruction budget per path")
@@ -189,7 +191,7 @@ func runPath(ld *loaded, s *Solver, c *Config, req Request) (res *PathResult) {
 	}
 	e := &Engine{prog: ld.prog, pkg: ld.pkg, s: s, globals: map[*ssa.Global]*Loc{}, trace: req.Prefix,
 		res: res, harness: req.Harness, funcs: map[string]bool{}, exts: map[string]bool{}, conc: map[string]int64{},
-		maxSteps: c.MaxSteps, maxEnum: c.MaxEnum, unwind: c.Unwind, noMerge: c.NoMerge, mergeLimit: req.MergeLimit, clock: bv(0, 64), wantWitness: req.Witness, dumpDir: c.DumpDir, dumpMax: 3}
+		maxSteps: c.MaxSteps, maxEnum: c.MaxEnum, unwind: c.Unwind, noMerge: c.NoMerge, mergeLimit: req.MergeLimit, thorough: c.Tier == "thorough", clock: bv(0, 64), wantWitness: req.Witness, dumpDir: c.DumpDir, dumpMax: 3}
 	curSolver = s
 	q0, d0 := s.queries, s.dur
 	u0, s0 := s.nUnsat, s.nSat
